@@ -1,6 +1,9 @@
 #!/bin/bash
-# Offline set-up after a fresh restore: warm the per-worker Kani target dirs (dependency rlibs)
-# so that the first check does not pay the cold build 8 times in sequence.
+# Offline set-up after a fresh restore:
+#  1. warm the per-worker Kani target dirs (dependency rlibs), so the first check does not pay the cold build 8 times;
+#  2. validate the reference models natively against the repository's own data (static table rows, Huffman codes,
+#     prefix-int vectors): a mismatch fails the set-up (the checks would compare against a wrong oracle);
+#  3. build the native replay crate and warm the MIR dump used by engine M.
 set -u
 cd "$(dirname "$0")"
 export CARGO_NET_OFFLINE=true
@@ -8,6 +11,7 @@ export RUSTFLAGS="--cfg hyperium_h3_verif"
 mkdir -p .build/logs evidence
 cp -f /repo/Cargo.lock kani/Cargo.lock
 cp -f /repo/Cargo.lock kani/Cargo.lock.src
+cp -f /repo/Cargo.lock replay/Cargo.lock
 pids=()
 for i in 0 1 2 3 4 5 6 7; do
   ( cd kani && cargo kani --target-dir "../.build/w$i" --only-codegen -Z stubbing \
@@ -17,5 +21,14 @@ done
 rc=0
 for p in "${pids[@]}"; do wait "$p" || rc=1; done
 if [ $rc -ne 0 ]; then echo "setup: warming a Kani target dir failed, see .build/logs/setup_w*.log"; tail -5 .build/logs/setup_w0.log; fi
-python3-vt -c "import z3" || { echo "z3 python bindings missing"; rc=1; }
+( cd kani && cargo test --offline --target-dir ../.build/native > ../.build/logs/setup_refmodel.log 2>&1 ) \
+  || { echo "setup: native validation of the reference models FAILED, see .build/logs/setup_refmodel.log"; tail -20 .build/logs/setup_refmodel.log; rc=1; }
+( cd replay && cargo build --offline --target-dir ../.build/replay > ../.build/logs/setup_replay.log 2>&1 ) \
+  || { echo "setup: replay crate does not build, see .build/logs/setup_replay.log"; tail -20 .build/logs/setup_replay.log; rc=1; }
+python3-vt -c "
+import sys; sys.path.insert(0, '.')
+from mirsym import engine as E
+L = E.Loaded()
+print('setup: MIR dump ok,', len(L.fns), 'functions,', len(L.consts), 'named constants')
+" || { echo "setup: MIR dump / z3 bindings failed"; rc=1; }
 exit $rc
